@@ -230,6 +230,11 @@ pub fn small_documents() -> Vec<Vec<u8>> {
     docs
 }
 
+fn long_string_forms(len: usize) -> Vec<V> {
+    let st: Vec<u8> = (0..len).map(|i| (i % 251) as u8).collect();
+    vec![V::Str(st.clone()), V::List(vec![V::Str(st.clone()), V::Int(1)]), V::Dict(vec![(b"pieces".to_vec(), V::Str(st.clone())), (b"z".to_vec(), V::Int(0))]), V::Dict(vec![(st.clone(), V::Int(1))])]
+}
+
 pub fn run(ctx: &Ctx) -> Outcome {
     let width = ctx.tier.pick(2, 3);
     let fams = families(width);
@@ -377,6 +382,15 @@ pub fn run(ctx: &Ctx) -> Outcome {
             ctx.violation(class, summary, json!({"hex": core::hex(&doc)}));
         }
     }
+    // long strings (around the 64 KiB frame size and beyond), same four positions
+    for len in [255usize, 256, 65535, 65536, 65537, 100_000, 1 << 20, (1 << 21) + 1] {
+        for (form, f) in long_string_forms(len).into_iter().enumerate() {
+            bin_docs += 1;
+            if let Some((class, summary)) = check_value(&f) {
+                ctx.violation(class, format!("(string of {} bytes) {}", len, &summary[..summary.len().min(200)]), json!({"long_string_len": len, "form": form}));
+            }
+        }
+    }
     evaluations += bin_docs;
     containers += bin_docs;
 
@@ -406,7 +420,7 @@ pub fn run(ctx: &Ctx) -> Outcome {
     o.set("binary_string_documents", json!(bin_docs));
     o.set("filler_lengths", json!(pads.len()));
     o.set("nesting_ladder_values", json!(ladder));
-    o.set("rule", json!("every value of three index-addressable families is generated exactly once (mixed-radix index -> value): lists with repetition and dictionaries with distinct keys of at most `width` children over (depth1) 17 leaves, (depth2) 3 reduced leaves + all depth-1 containers over them, (depth3) those + width-1 depth-2 containers. Non-trivial = a container (all indices give distinct values); the 17 bare leaves are counted in evaluations only. Plus binary strings: every byte string of length 0..=2 (65 793) as a bare value, a list element, a dictionary value and a dictionary key. Plus long documents: 12 small values (scalars, empty and nested containers) behind a filler string of every length 0..=600 (thorough 0..=5000) and 2^k-4..=2^k+4 for k = 10..=14 (17), in three layouts (list, dictionary, list of list); plus nesting ladders of depth 1..=256 (lists, dictionaries, alternating) — 256 is the decoder's documented nesting limit."));
+    o.set("rule", json!("every value of three index-addressable families is generated exactly once (mixed-radix index -> value): lists with repetition and dictionaries with distinct keys of at most `width` children over (depth1) 17 leaves, (depth2) 3 reduced leaves + all depth-1 containers over them, (depth3) those + width-1 depth-2 containers. Non-trivial = a container (all indices give distinct values); the 17 bare leaves are counted in evaluations only. Plus binary strings: every byte string of length 0..=2 (65 793) as a bare value, a list element, a dictionary value and a dictionary key, and strings of 255, 256, 65535, 65536, 65537, 100000, 2^20 and 2^21+1 bytes in the same positions. Plus long documents: 12 small values (scalars, empty and nested containers) behind a filler string of every length 0..=600 (thorough 0..=5000) and 2^k-4..=2^k+4 for k = 10..=14 (17), in three layouts (list, dictionary, list of list); plus nesting ladders of depth 1..=256 (lists, dictionaries, alternating) — 256 is the decoder's documented nesting limit."));
     o.set("families", Value::Array(per_family));
     o.set("samples", Value::Array(samples));
     o.set("exhaustive", json!(exhaustive));
@@ -417,6 +431,19 @@ pub fn run(ctx: &Ctx) -> Outcome {
 }
 
 pub fn replay(_ctx: &Ctx, r: &Value) -> i32 {
+    if let Some(len) = r["long_string_len"].as_u64() {
+        let v = long_string_forms(len as usize).remove(r["form"].as_u64().unwrap_or(0) as usize);
+        return match check_value(&v) {
+            Some((class, s)) => {
+                println!("VIOLATION property=C15 replay=<this file>\n  class={} {}", class, &s[..s.len().min(300)]);
+                1
+            }
+            None => {
+                println!("holds for this value");
+                0
+            }
+        };
+    }
     let hexs = r["hex"].as_str().unwrap_or("");
     let bytes: Vec<u8> = (0..hexs.len() / 2)
         .map(|i| u8::from_str_radix(&hexs[2 * i..2 * i + 2], 16).unwrap())
